@@ -1224,6 +1224,12 @@ val run_body : unit m -> bool m
 
 val call_body : z -> n -> bool -> unit m -> unit m
 
+val is_not_defined : ecls -> bool
+
+val is_array_direct : n -> ecls -> bool
+
+val catch_cls : 'a1 m -> (ecls -> bool) -> (fail -> 'a1 m) -> 'a1 m
+
 val ped_guard : bool -> token -> unit m
 
 val eval_bounds : (node -> result m) -> n -> node list -> z -> dim list m
